@@ -1,5 +1,6 @@
 """C04  Untrusted wire or text input only ever raises the library's own errors."""
 
+import io
 import re
 import struct
 
@@ -202,7 +203,16 @@ def run_wire_message(case):
                     raise Violation("continue_on_error", "continue_on_error changed the result of a clean parse", "coe-differs")
         _usable("wire_message", lambda: m.to_text(), "to_text() of the parsed message")
         _usable("wire_message", lambda: repr(m), "repr() of the parsed message")
-        _usable("wire_message", lambda: m.to_wire(max_size=65535), "to_wire() of the parsed message")
+        if _usable("wire_message", lambda: m.to_wire(max_size=65535), "to_wire() of the parsed message") is None:
+            classes.append("rerender-refused")
+            if case.get("mode") == 8:
+                classes.append("expanding:rerender-refused")
+        # the record-level renderers as well (they have their own length bookkeeping)
+        for sec_ in m.sections:
+            for rr_ in sec_:
+                _usable("wire_message", lambda: rr_.to_wire(io.BytesIO()), "rrset.to_wire()")
+                for rd_ in rr_:
+                    _usable("wire_message", lambda: (rd_.to_wire(), rd_.to_digestable()), "rdata.to_wire()")
         _usable("wire_message", lambda: [rr.to_text() for s in m.sections for rr in s], "rrset.to_text()")
         _usable("wire_message", lambda: dns.message.make_response(m) if not (m.flags & 0x8000) else None, "make_response()")
     return {"nontrivial": m is not None or len(w) >= 12, "classes": classes}
@@ -210,10 +220,45 @@ def run_wire_message(case):
 
 @st.composite
 def wire_message_cases(draw):
-    mode = draw(st.integers(0, 7))
+    mode = draw(st.integers(0, 8))
     origin = None
     signed = False
-    if mode >= 6:
+    if mode == 8:
+        # expanding: a long question name and records whose RDATA names are compression pointers to
+        # it.  The parser follows pointers in every type; the renderer writes most of them out in
+        # full, so the re-rendered RDATA is far longer than the received one -- with the name list
+        # of HIP beyond the 65535 octets an RDLENGTH can express
+        labs = draw(st.lists(st.binary(min_size=1, max_size=63), min_size=1, max_size=8))
+        if draw(st.integers(0, 2)) != 0:
+            # a name of (nearly) the maximum length
+            labs = [bytes([draw(st.integers(0, 255))]) * 63 for _ in range(3)] + [b"d" * draw(st.sampled_from([61, 60, 40]))]
+        qn = b""
+        for l in labs:
+            if len(qn) + len(l) + 2 > 255:
+                l = l[: max(0, 253 - len(qn))]
+                if not l:
+                    break
+            qn += bytes([len(l)]) + l
+        qn += b"\x00"
+        body = bytearray(qn + struct.pack("!HH", 1, 1))
+        nrec = draw(st.integers(1, 3))
+        for _ in range(nrec):
+            t = draw(st.sampled_from([55, 55, 55, 17, 33, 47, 39, 64]))
+            ptr = b"\xc0\x0c"
+            n = draw(st.sampled_from([0, 1, 40, 257, 300, 300, 400, 400]))
+            rdata = {
+                55: bytes([4, 2]) + struct.pack("!H", 4) + b"hhhh" + b"kkkk" + ptr * n,
+                17: ptr + ptr,
+                33: struct.pack("!HHH", 1, 2, 3) + ptr,
+                47: ptr + b"\x00\x01\x40",
+                39: ptr,
+                64: struct.pack("!H", 1) + ptr,
+            }[t]
+            body += ptr + struct.pack("!HHIH", t, 1, 300, len(rdata)) + rdata
+        w = struct.pack("!HHHHHH", draw(st.integers(0, 65535)), 0x8400, 1, nrec, 0, 0) + bytes(body)
+        if draw(st.integers(0, 5)) == 0:
+            w = draw(mutate_bytes(w))
+    elif mode >= 6:
         # assembled: any opcode x any section counts x simple records of ordinary and meta classes
         # and types (well-formed RRs in unusual places: zone-less UPDATE, meta classes in ADDITIONAL,
         # OPT/TSIG out of place ...)
@@ -270,7 +315,7 @@ def wire_message_cases(draw):
     opts["keyring_form"] = draw(st.integers(0, 2))
     if signed:
         opts["keyring"] = draw(st.integers(0, 3)) != 0
-    return {"wire": w.hex(), "opts": opts, "origin": origin if draw(st.booleans()) else None}
+    return {"wire": w.hex(), "opts": opts, "origin": origin if draw(st.booleans()) else None, "mode": mode}
 
 
 # ---------------------------------------------------------------------------
@@ -864,7 +909,7 @@ def parts(tier):
     mk = lambda a, b: {"quick": a, "thorough": b}
     return [
         Part("wire_message", run_wire_message, strategy=wire_message_cases(), n=mk(6000, 400000),
-             require={"parsed": 800, "coe-errors-recorded": 100, "exc:FormError": 200}, shards={"quick": 8, "thorough": 16}),
+             require={"parsed": 800, "coe-errors-recorded": 100, "exc:FormError": 200, "expanding:rerender-refused": 15}, shards={"quick": 8, "thorough": 16}),
         Part("wire_name", run_wire_name, strategy=wire_name_cases(), n=mk(3000, 100000), shards={"quick": 2, "thorough": 4}),
         Part("wire_rdata", run_wire_rdata, strategy=wire_rdata_cases(), n=mk(8000, 400000),
              require={"parsed": 1500}, shards={"quick": 8, "thorough": 16}),
